@@ -34,6 +34,17 @@ RICH = ["x86_64", "arm", "riscv", "microblaze"]
 MID = ["or1k", "mips"]
 WEAK = ["xtensa", "msp430", "avr", "m68k"]
 OPTS = [0, 1, 2, "s"]
+# march strings with options (the option part ends up in the object's arch id
+# and selects other instruction sets / calling conventions)
+VARIANTS = {
+    "x86_64": ["x86_64", "x86_64", "x86_64:wincc", "x86_64:sse2:wincc"],
+    "riscv": ["riscv", "riscv", "riscv:rvc", "riscv:rvc:rvf"],
+    "arm": ["arm", "arm", "arm:neon:vfpv2", "arm:thumb"],
+}
+
+
+def base_of(march):
+    return str(march).split(":")[0]
 
 
 class HarnessError(Exception):
@@ -99,7 +110,7 @@ def gen_subject(ch, sid, tier, chosen):
             continue
         opt = ch.pick(OPTS, "opt")
         outs = ["obj"]
-        if ch.chance(1, 3, "elf") or (t == "x86_64" and
+        if ch.chance(1, 3, "elf") or (base_of(t) == "x86_64" and
                                       ch.chance(1, 2, "elf64")):
             outs.append("elf")
         if ch.chance(1, 3, "img"):
@@ -173,7 +184,8 @@ def gen_asm_ops(ch, b, chosen):
         ops.append({"id": f"asm{b}.{n}-arm", "lang": "asm",
                     "src": gen_asm_arm(ch), "march": "arm", "opt": 0,
                     "outputs": ["obj"]})
-    cands = [t for t in chosen if t in GENERIC_ASM_TARGETS]
+    cands = [t for t in chosen if base_of(t) in GENERIC_ASM_TARGETS
+             and t != "arm:thumb"]
     for n in range(ch.weighted([2, 2, 1], "ngasm") if cands else 0):
         t = ch.pick(cands, "gasmtarget")
         ops.append({"id": f"gasm{b}.{n}-{t}", "lang": "asm",
@@ -184,13 +196,15 @@ def gen_asm_ops(ch, b, chosen):
 
 def gen_c3_ops(ch, b, chosen):
     ops = []
-    cands = [t for t in chosen if t in RICH + MID]
+    cands = [t for t in chosen if base_of(t) in RICH + MID]
     for n in range(ch.weighted([2, 2, 1], "nc3") if cands else 0):
         t = ch.pick(cands, "c3target")
         opt = ch.pick(OPTS, "c3opt")
         outs = ["obj"] + (["img", "hex"] if ch.chance(1, 3, "c3img") else [])
+        srcs = [gen_c3_unit(ch, f"{b}_{n}_{k}")
+                for k in range(ch.weighted([0, 3, 2, 1], "c3nfiles"))]
         ops.append({"id": f"c3_{b}.{n}-{t}-O{opt}", "lang": "c3",
-                    "src": gen_c3_unit(ch, f"{b}_{n}"), "march": t,
+                    "src": srcs[0], "more_srcs": srcs[1:], "march": t,
                     "opt": opt, "debug": bool(ch.chance(1, 5, "c3debug")),
                     "outputs": outs})
     return ops
@@ -199,7 +213,7 @@ def gen_c3_ops(ch, b, chosen):
 def gen_project_ops(ch, b, chosen):
     """Multi-module programs: archive + link with libraries."""
     ops = []
-    cands = [t for t in chosen if t in RICH]
+    cands = [t for t in chosen if base_of(t) in RICH]
     for n in range(ch.weighted([2, 3, 1], "nproj") if cands else 0):
         t = ch.pick(cands, "projtarget")
         main, members = gen_project(ch, f"{n}")
@@ -208,7 +222,7 @@ def gen_project_ops(ch, b, chosen):
             extra.append(gen_unit(ch, "basic", fn_prefix=f"x{n}_",
                                   glob_prefix=f"xg{n}_"))
         outs = ["obj"]
-        if t == "x86_64" and ch.chance(1, 2, "projexe"):
+        if base_of(t) == "x86_64" and ch.chance(1, 2, "projexe"):
             outs.append("exe")
         ops.append({"id": f"proj{b}.{n}-{t}", "lang": "project", "src": main,
                     "members": members, "extra": extra, "march": t,
@@ -243,6 +257,7 @@ def gen_batch(seed, b):
     targets = [RICH, RICH + MID, RICH + MID + WEAK][tier]
     nt = 1 + ch.weighted([1, 3, 2], "ntargets")
     chosen = ch.perm(targets, "targets")[:nt]
+    chosen = [ch.pick(VARIANTS.get(t, [t]), "variant") for t in chosen]
     ops = []
     for sid in range(m):
         ops += gen_subject(ch, f"{b}.{sid}", tier, chosen)
